@@ -76,7 +76,10 @@ def _shard_body(ctx, mod, prop, tier, shard):
     import signal
 
     def _alarm(signum, frame):
-        raise core.HarnessError("shard %d exceeded its wall-clock guard while working on %s" % (shard, core.canon(ctx._current)[:1500]))
+        # Hypothesis re-runs a case whose execution raised; keep interrupting (and make every later check fail fast)
+        core.ABORTED[0] = "shard %d exceeded its wall-clock guard while working on %s" % (shard, core.canon(ctx._current)[:1500])
+        signal.alarm(2)
+        raise core.HarnessError(core.ABORTED[0])
     signal.signal(signal.SIGALRM, _alarm)
     signal.alarm(int(os.environ.get("VERIF_SHARD_GUARD_S", "900" if tier == "quick" else "14400")))
     try:
